@@ -222,6 +222,23 @@ for (fk, fv), (lk, lv), (tk, tv), (ek, ev) in itertools.product(FUNCS.items(), L
     add(f"exit/{fk}/{lk}/{tk}/{ek}", src)
     n += 1
 
+# exits that leave a catch / finally block from inside a scope opened in that block (an environment, a `with` object or a
+# loop scope that is still on the environment stack when the jump is taken)
+TRY_SCOPED = {
+    "in_finally_let": "try { x++; } finally { let z = x; g(() => z); {B} }",
+    "in_catch_let": "try { throw 1; } catch (e) { let z = e; g(() => z + e); {B} }",
+    "in_finally_with": "try { x++; } finally { with (o) { {B} } }",
+    "in_finally_block_let": "try { x++; } finally { { let z = x; g(() => z); { let w = z; g(() => w); {B} } } }",
+    "finally_let_in_finally_let": "try { try { x++; } finally { let z = x; g(() => z); {B} } } finally { let w = x; g(() => w); }",
+    "in_finally_let_after_return": "try { if (x > 1) return g(x); } finally { let z = x; g(() => z); {B} }",
+}
+for (fk, fv), (lk, lv), (tk, tv), ek in itertools.product(FUNCS.items(), LOOPS.items(), TRY_SCOPED.items(),
+                                                        ("break", "continue", "break_l", "continue_l", "return", "throw")):
+    if fk != "function" and sum(map(ord, fk + lk + tk + ek)) % 5 != 0:
+        continue
+    src = fv.replace("{L}", lv.replace("{T}", tv.replace("{B}", EXITS[ek])))
+    add(f"exitscope/{fk}/{lk}/{tk}/{ek}", src)
+
 # `yield` / `await` as the exit inside try shapes
 for (tk, tv) in TRY.items():
     add(f"yield/{tk}", "var o = {p: 0}; function g(a) { return a; } function* f(x) { L: for (var i = 0; i < 2; i++) { " + tv.replace("{B}", "x = yield x; if (x) return yield g(x);") + " } } var it = f(0); it.next(); it.next(0); it.next(1); it.return(2); var i2 = f(1); i2.next(); i2.throw(3);")
